@@ -23,6 +23,7 @@ var (
 func checkC10(c *chk.Ctx) {
 	h := newH(c)
 	c.Decided = []string{
+		"R10i an offset is only reported synced when a flush that started after it was appended has completed (sync-round rules shared with C01/C03/C04/C08/C09)",
 		"R10h the list of segment base offsets read from the WAL directory is sorted numerically before it is used positionally (first / last segment at recovery): directory order is by file name, not by offset",
 		"R10a lengths read from the file are range-checked in an overflow-safe form before any sum containing them is compared",
 		"R10b the chained CRC is compared before a v2 record header is accepted; recovery indexes an entry only after that validation; the v2 index is checksummed before use",
@@ -43,6 +44,7 @@ func checkC10(c *chk.Ctx) {
 	ruleR10f(h)
 	ruleTruncateClearsTail(h, "R10g")
 	ruleSegmentListSorted(h, "R10h")
+	ruleSyncCompletionsCovered(h, "R10i")
 }
 
 func codecImplMethods(h *H, rule, method string) []*ssa.Function {
